@@ -19,3 +19,24 @@ package bip340
 //@   ensures result == nil ==> !publicKey.Value().IsOpIdentity() && publicKey.Value().IsTorsionFree()
 //@   ensures (result == nil && v.challengePublicKey == nil) ==> res(v.variant.ComputeChallenge(signature.R, P, message), 1) == nil
 //@   ensures (result == nil && v.challengePublicKey == nil) ==> !R.IsZero() && !res(R.AffineY(), 0).IsOdd() && res(signature.R.AffineX(), 0).Equal(res(R.AffineX(), 0))
+
+// Batch verification accepts only if the randomised batch equation holds where, for EVERY triple i, the challenge e_i
+// is RECOMPUTED from (R_i, pk_i, m_i) (never taken from the signature value), P_i = lift_x(pk_i), R_i = lift_x(r_i),
+// and the left side accumulates a_i * s_i over ALL signatures (a_0 = 1, a_i drawn from the verifier's reader):
+//   (sum a_i s_i) G == MSM(a, R) + MSM(a.e, P)
+//@ func (*Verifier).BatchVerify
+//@   property C15
+//@   ghostvar lf map[int]typeof(left)
+//@   ensures result == nil ==> v.prng != nil && len(publicKeys) == len(sigs) && len(sigs) == len(messages) && len(sigs) > 0
+//@   ensures result == nil ==> forall i int :: 0 <= i && i < len(sigs) ==> res(v.variant.ComputeChallenge(sigs[i].R, publicKeys[i].V, messages[i]), 1) == nil && ae[i] == a[i].Mul(res(v.variant.ComputeChallenge(sigs[i].R, publicKeys[i].V, messages[i]), 0)) && bigP[i] == LiftX(publicKeys[i].Value()) && bigR[i] == LiftX(sigs[i].R)
+//@   ensures result == nil ==> lf[0] == sf.Zero() && left == lf[len(sigs)] && forall i int :: 0 <= i && i < len(sigs) ==> lf[i+1] == lf[i].Add(a[i].Mul(sigs[i].S))
+//@   ensures result == nil ==> a[0] == sf.One() && len(a) == len(sigs) && len(ae) == len(sigs) && len(bigR) == len(sigs) && len(bigP) == len(sigs)
+//@   ensures result == nil ==> curve.Generator().ScalarMul(left).Equal(res(curve.MultiScalarMul(a, bigR), 0).Add(res(curve.MultiScalarMul(ae, bigP), 0)))
+//@   loop for(i < len(sigs))
+//@     invariant len(a) == len(sigs) && a[0] == sf.One() && 1 <= i
+//@   loop range(sigs)
+//@     invariant len(a) == len(sigs) && len(ae) == len(sigs) && len(bigR) == len(sigs) && len(bigP) == len(sigs) && a[0] == sf.One()
+//@     invariant forall i int :: 0 <= i && i < $i ==> res(v.variant.ComputeChallenge(sigs[i].R, publicKeys[i].V, messages[i]), 1) == nil && ae[i] == a[i].Mul(res(v.variant.ComputeChallenge(sigs[i].R, publicKeys[i].V, messages[i]), 0)) && bigP[i] == LiftX(publicKeys[i].Value()) && bigR[i] == LiftX(sigs[i].R)
+//@     invariant lf[0] == sf.Zero() && left == lf[$i] && forall i int :: 0 <= i && i < $i ==> lf[i+1] == lf[i].Add(a[i].Mul(sigs[i].S))
+//@   ghostset before "ae := make([]*k256.Scalar, len(sigs))": lf[0] = left
+//@   ghostset after "left = left.Add(a[i].Mul(sig.S))": lf[$i+1] = left
